@@ -202,10 +202,32 @@ def run_argon(job):
         s.cmd("ksf_new", id="ver10", param={"m": 64, "t": 1, "p": 1, "ver": 16})
         s.cmd("ksf_new", id="secret", param={"m": 64, "t": 1, "p": 1, "secret": "70657070657270657070657221"})
         s.cmd("ksf_new", id="secret2", param={"m": 64, "t": 1, "p": 1, "secret": "70657070657270657070657221"})
+        # an explicitly configured output length: equal to the suite's Nh it is cheapA again; any other length cannot produce the
+        # Nh-byte value the protocol needs, so the configured instance must be refused (an error value), never replaced or cut
+        nh = s.sz.nh
+        s.cmd("ksf_new", id="outNh", param={"m": 64, "t": 1, "p": 1, "out": nh})
+        s.cmd("ksf_new", id="out16", param={"m": 64, "t": 1, "p": 1, "out": 16})
+        s.cmd("ksf_new", id="out2Nh", param={"m": 64, "t": 1, "p": 1, "out": 2 * nh})
+        unusable = ("out16", "out2Nh")
         key = {None: "default", "def": "default", "cheapA": "A", "cheapA2": "A", "cheapB": "B", "cheapC": "C", "lanes2": "L2", "algI": "I", "algD": "D",
-               "ver10": "V10", "secret": "S", "secret2": "S"}
+               "ver10": "V10", "secret": "S", "secret2": "S", "outNh": "A", "out16": "unusable-16", "out2Nh": "unusable-2Nh"}
         regm = [None, "def", "cheapA", "cheapB", "secret"] if tier == "quick" else [None, "def", "cheapA", "cheapB", "cheapC", "lanes2", "algI", "ver10", "secret"]
-        logm = [None, "def", "cheapA", "cheapA2", "cheapB", "cheapC", "lanes2", "algI", "algD", "ver10", "secret", "secret2"]
+        logm = [None, "def", "cheapA", "cheapA2", "cheapB", "cheapC", "lanes2", "algI", "algD", "ver10", "secret", "secret2", "outNh", "out16", "out2Nh"]
+        # registration with an unusable instance: an error value (KsfError), no upload
+        for um in unusable:
+            rng = s.rng("r", proto.H("c15u", su, job["seed"], um))
+            s.cmd("setup_new", rng=rng, out="S")
+            s.cmd("creg_start", rng=rng, pw=b"argon-password", out_state="g.cs", out_msg="g.rq")
+            s.cmd("sreg_start", setup="S", req="g.rq", cred=b"id", out="g.rr")
+            c = s.cmd("creg_finish", rng=rng, state="g.cs", pw=b"argon-password", resp="g.rr", ksf=um, out="g.up")
+            evals += 4
+            stats["argon_unusable"] = stats.get("argon_unusable", 0) + 1
+            if c.get("panic") or c.get("died"):
+                V("Argon2: registration with an unusable instance panicked", "%s: %s" % (um, c.get("panic") or "died"))
+            elif c.ok:
+                V("Argon2: registration succeeded with an instance that cannot produce Nh bytes", um)
+            elif c.err != "LibraryError/KsfError":
+                V("Argon2: unusable instance reported as %s" % c.err, um)
         pw = b"argon-password"
         for rm in regm:
             rng = s.rng("r", proto.H("c15a", su, job["seed"]))
@@ -226,7 +248,15 @@ def run_argon(job):
                 stats["argon_pairs"] += 1
                 expect = key[rm] == key[lm]
                 case = {"suite": su, "registration_ksf": rm or "absent", "login_ksf": lm or "absent"}
-                if g.ok != expect:
+                if g.get("panic") or g.get("died"):
+                    V("Argon2: login with instance %s panicked" % (lm or "absent"), "%s %s" % (case, g.get("panic") or "died"))
+                elif lm in unusable:
+                    stats["argon_unusable"] = stats.get("argon_unusable", 0) + 1
+                    if g.ok:
+                        V("Argon2: login succeeded with an instance that cannot produce Nh bytes", str(case))
+                    elif g.err != "LibraryError/KsfError":
+                        V("Argon2: unusable login instance reported as %s" % g.err, str(case))
+                elif g.ok != expect:
                     V("Argon2: login under (registration %s, login %s) %s" % (rm or "absent", lm or "absent", "succeeded" if g.ok else "failed"), "%s %s" % (case, g.get("err")))
                 elif not g.ok and g.err != "InvalidLoginError":
                     V("Argon2 mismatch: error %s" % g.err, str(case))
